@@ -28,6 +28,7 @@ import (
 	"github.com/BlackVectorOps/semantic_firewall/v3/pkg/detection"
 	"github.com/BlackVectorOps/semantic_firewall/v3/pkg/models"
 	"github.com/BlackVectorOps/semantic_firewall/v3/pkg/storage/jsondb"
+	"github.com/BlackVectorOps/semantic_firewall/v3/pkg/storage/pebbledb"
 )
 
 type truthFunc struct {
@@ -51,6 +52,7 @@ type c16Tree struct {
 	target string
 	files  map[string]*truthFile // by rel
 	jsonDB string
+	pebble string // the same database in the embedded store
 }
 
 var c16Map = map[uint64]*c16Tree{}
@@ -260,6 +262,17 @@ func getC16Tree(seed uint64) (*c16Tree, error) {
 	// a tiny JSON signature database (content irrelevant for coverage)
 	c.jsonDB = filepath.Join(root, "sigs.json")
 	os.WriteFile(c.jsonDB, []byte(`{"version":"1.0","description":"c16","signatures":[{"id":"S1","name":"s","description":"","severity":"LOW","category":"c","topology_hash":"00","entropy_score":1,"entropy_tolerance":0.1,"node_count":1,"loop_depth":0,"identifying_features":{},"metadata":{"author":"","created":""}}]}`), 0o644)
+	c.pebble = filepath.Join(root, "sigs.db")
+	if ps, err := pebbledb.NewPebbleScanner(c.pebble, pebbledb.DefaultPebbleScannerOptions()); err == nil {
+		sg := detection.Signature{ID: "S1", Name: "s", Severity: "LOW", Category: "c", TopologyHash: "00", EntropyScore: 1, EntropyTolerance: 0.1, NodeCount: 1}
+		aerr := ps.AddSignature(&sg)
+		cerr := ps.Close()
+		if aerr != nil || cerr != nil {
+			return nil, fmt.Errorf("c16 pebble db: %v %v", aerr, cerr)
+		}
+	} else {
+		return nil, fmt.Errorf("c16 pebble db: %w", err)
+	}
 	c16Map[seed] = c
 	return c, nil
 }
@@ -282,6 +295,11 @@ func runC16(t *vs.Tape, cfg map[string]string) (res vs.Result) {
 	strict := t.Chance("strict", 1, 2)
 	withScan := t.Chance("withscan", 1, 3)
 	mp := vs.Pick(t, "gomaxprocs", 4, 1, 16, 2)
+	dbPath := tr.jsonDB
+	if t.Chance("backend.pebble", 1, 3) {
+		dbPath = tr.pebble
+		c.Inc("runs_pebble_backend")
+	}
 	var fired []fsFault
 	var decide func(op, rel string, isDir bool) string
 	var sim *vs.Sim
@@ -323,11 +341,11 @@ func runC16(t *vs.Tape, cfg map[string]string) (res vs.Result) {
 		if cmd == "check" {
 			db := ""
 			if withScan {
-				db = tr.jsonDB
+				db = dbPath
 			}
 			fn = func() error { return RunCheckLogic(fsys, tr.target, strict, withScan, db) }
 		} else {
-			opts := models.ScanOptions{DBPath: tr.jsonDB, Threshold: 0.75, DepsDepth: "direct"}
+			opts := models.ScanOptions{DBPath: dbPath, Threshold: 0.75, DepsDepth: "direct"}
 			fn = func() error { return RunScanLogic(fsys, RealPackageLoader{}, tr.target, opts) }
 		}
 		old := runtimeGOMAXPROCS(mp)
